@@ -81,10 +81,24 @@ package scanner
 //@   ensures normal ==> len(s.returnToStep.vals) == old(len(s.returnToStep.vals)) + 1 && s.returnToStep.vals[old(len(s.returnToStep.vals))] == old(s.step)
 //@   ensures normal ==> s.step == (s.annotation == annotationNone ? stateAnyAnnotationStart : stateInlineAnnotationStart)
 //@ func (*Scanner).switchToComment()
-//@   props C14
+//@   props C14 C13
 //@   requires s != nil && s.returnToStep != nil && 1 <= s.index && s.index <= len(s.data)
 //@   maypanic
 //@   modifies s.step, s.returnToStep.vals, s.returnToStep.vals[*]
+//@   ensures panics <==> !(s.annotation == annotationNone || s.annotation == annotationInline)
+//@   ensures panics ==> typeis(pv, errors.DocumentError)
+//@   ensures normal ==> s.step == stateAnyCommentStart && len(s.returnToStep.vals) == old(len(s.returnToStep.vals)) + 1 && s.returnToStep.vals[old(len(s.returnToStep.vals))] == old(s.step)
+//@ func (*Scanner).isCommentStart(c)
+//@   props C13
+//@   requires s != nil
+//@   pure
+//@   ensures result == ((s.annotation == annotationNone || s.annotation == annotationInline) && c == '#')
+//@ func (*Scanner).setContext(c)
+//@   props C06
+//@   requires s != nil && s.prevContextsStack != nil
+//@   nopanic
+//@   modifies s.context.Type, s.context.ArrayHasItem, s.prevContextsStack.vals, s.prevContextsStack.vals[*]
+//@   ensures s.context == c && len(s.prevContextsStack.vals) == old(len(s.prevContextsStack.vals)) + 1
 
 // after the root value: line ends are reported, annotations and user comments are
 // entered IN BOTH MODES (they belong to the schema); any other non-blank byte ends
@@ -157,6 +171,9 @@ package scanner
 //@   ensures normal && isNewLine(c) ==> result == scanContinue && len(s.finds) == old(len(s.finds)) + 1 && s.finds[old(len(s.finds))] == lexeme.NewLine && s.step == old(s.step) && s.unfinishedLiteral == old(s.unfinishedLiteral)
 //@   ensures normal && isBlank(c) && !isNewLine(c) ==> result == scanContinue && len(s.finds) == old(len(s.finds)) && s.step == old(s.step) && s.unfinishedLiteral == old(s.unfinishedLiteral)
 //@   ensures normal && c == '/' ==> result == scanContinue && len(s.finds) == old(len(s.finds))
+//@   ensures normal && !isNewLine(c) ==> len(s.finds) == old(len(s.finds)) && s.finds.$arr == old(s.finds.$arr) && s.finds.$off == old(s.finds.$off)
+//@   ensures normal ==> (forall j {s.finds[j]} :: 0 <= j && j < old(len(s.finds)) ==> s.finds[j] == old(s.finds[j]))
+//@   ensures normal && (isBlank(c) || c == '/') ==> result == scanContinue
 //@   ensures normal && c == '{' ==> result == scanBeginObject && s.step == stateFoundObjectKeyBeginOrEmpty && len(s.finds) == old(len(s.finds))
 //@   ensures normal && c == '[' ==> result == scanBeginArray && s.step == stateFoundArrayItemBeginOrEmpty && len(s.finds) == old(len(s.finds))
 //@   ensures normal && c == '"' ==> result == scanBeginLiteral && s.step == stateInString && s.unfinishedLiteral
@@ -167,3 +184,39 @@ package scanner
 //@   ensures normal && c == 'f' ==> result == scanBeginLiteral && s.step == stateF && s.unfinishedLiteral
 //@   ensures normal && c == 'n' ==> result == scanBeginLiteral && s.step == stateN && s.unfinishedLiteral
 //@   ensures normal && c == '@' ==> result == scanBeginTypesShortcut && s.step == stateTypesShortcutBeginOfSchemaName && s.unfinishedLiteral
+
+// C06/C13: an array item opens with ArrayItemBegin followed by the opening event(s) of
+// its value, in that order; `#` opens a user comment instead (outside annotations)
+//@ func stateFoundArrayItemBegin(s, c)
+//@   props C06 C13
+//@   requires s != nil && s.returnToStep != nil && s.prevContextsStack != nil && 1 <= s.index && s.index <= len(s.data)
+//@   maypanic
+//@   modifies s.step, s.finds, s.finds[*], s.unfinishedLiteral, s.returnToStep.vals, s.returnToStep.vals[*], s.context.Type, s.context.ArrayHasItem, s.prevContextsStack.vals, s.prevContextsStack.vals[*]
+//@   ensures panics ==> typeis(pv, errors.DocumentError)
+//@   ensures normal && result == scanBeginLiteral ==> len(s.finds) == old(len(s.finds)) + 2 && s.finds[old(len(s.finds))] == lexeme.ArrayItemBegin && s.finds[old(len(s.finds)) + 1] == lexeme.LiteralBegin
+//@   ensures normal && result == scanBeginObject ==> len(s.finds) == old(len(s.finds)) + 2 && s.finds[old(len(s.finds))] == lexeme.ArrayItemBegin && s.finds[old(len(s.finds)) + 1] == lexeme.ObjectBegin && s.context.Type == contextTypeObject
+//@   ensures normal && result == scanBeginArray ==> len(s.finds) == old(len(s.finds)) + 2 && s.finds[old(len(s.finds))] == lexeme.ArrayItemBegin && s.finds[old(len(s.finds)) + 1] == lexeme.ArrayBegin && s.context.Type == contextTypeArray
+//@   ensures normal && result == scanBeginTypesShortcut ==> len(s.finds) == old(len(s.finds)) + 3 && s.finds[old(len(s.finds))] == lexeme.ArrayItemBegin && s.finds[old(len(s.finds)) + 1] == lexeme.MixedValueBegin && s.finds[old(len(s.finds)) + 2] == lexeme.TypesShortcutBegin
+//@   ensures normal && (result == scanBeginLiteral || result == scanBeginObject || result == scanBeginArray || result == scanBeginTypesShortcut) ==> (forall j :: 0 <= j && j < old(len(s.finds)) ==> s.finds[j] == old(s.finds[j]))
+//@ func stateFoundObjectValueBegin(s, c)
+//@   props C06 C13
+//@   requires s != nil && s.returnToStep != nil && s.prevContextsStack != nil && 1 <= s.index && s.index <= len(s.data)
+//@   maypanic
+//@   modifies s.step, s.finds, s.finds[*], s.unfinishedLiteral, s.returnToStep.vals, s.returnToStep.vals[*], s.context.Type, s.context.ArrayHasItem, s.prevContextsStack.vals, s.prevContextsStack.vals[*]
+//@   ensures panics ==> typeis(pv, errors.DocumentError)
+//@   ensures normal && result == scanBeginLiteral ==> len(s.finds) == old(len(s.finds)) + 2 && s.finds[old(len(s.finds))] == lexeme.ObjectValueBegin && s.finds[old(len(s.finds)) + 1] == lexeme.LiteralBegin
+//@   ensures normal && result == scanBeginObject ==> len(s.finds) == old(len(s.finds)) + 2 && s.finds[old(len(s.finds))] == lexeme.ObjectValueBegin && s.finds[old(len(s.finds)) + 1] == lexeme.ObjectBegin && s.context.Type == contextTypeObject
+//@   ensures normal && result == scanBeginArray ==> len(s.finds) == old(len(s.finds)) + 2 && s.finds[old(len(s.finds))] == lexeme.ObjectValueBegin && s.finds[old(len(s.finds)) + 1] == lexeme.ArrayBegin && s.context.Type == contextTypeArray
+//@   ensures normal && result == scanBeginTypesShortcut ==> len(s.finds) == old(len(s.finds)) + 3 && s.finds[old(len(s.finds))] == lexeme.ObjectValueBegin && s.finds[old(len(s.finds)) + 1] == lexeme.MixedValueBegin && s.finds[old(len(s.finds)) + 2] == lexeme.TypesShortcutBegin
+//@   ensures normal && (result == scanBeginLiteral || result == scanBeginObject || result == scanBeginArray || result == scanBeginTypesShortcut) ==> (forall j :: 0 <= j && j < old(len(s.finds)) ==> s.finds[j] == old(s.finds[j]))
+// the root value: no item/value wrapper event, just the opening event(s) of the value
+//@ func stateFoundRootValue(s, c)
+//@   props C06 C13
+//@   requires s != nil && s.returnToStep != nil && s.prevContextsStack != nil && 1 <= s.index && s.index <= len(s.data)
+//@   maypanic
+//@   modifies s.step, s.finds, s.finds[*], s.unfinishedLiteral, s.returnToStep.vals, s.returnToStep.vals[*], s.context.Type, s.context.ArrayHasItem, s.prevContextsStack.vals, s.prevContextsStack.vals[*]
+//@   ensures panics ==> typeis(pv, errors.DocumentError)
+//@   ensures normal && result == scanBeginLiteral ==> len(s.finds) == old(len(s.finds)) + 1 && s.finds[old(len(s.finds))] == lexeme.LiteralBegin
+//@   ensures normal && result == scanBeginObject ==> len(s.finds) == old(len(s.finds)) + 1 && s.finds[old(len(s.finds))] == lexeme.ObjectBegin && s.context.Type == contextTypeObject
+//@   ensures normal && result == scanBeginArray ==> len(s.finds) == old(len(s.finds)) + 1 && s.finds[old(len(s.finds))] == lexeme.ArrayBegin && s.context.Type == contextTypeArray
+//@   ensures normal && result == scanBeginTypesShortcut ==> len(s.finds) == old(len(s.finds)) + 2 && s.finds[old(len(s.finds))] == lexeme.MixedValueBegin && s.finds[old(len(s.finds)) + 1] == lexeme.TypesShortcutBegin && s.context.Type == contextTypeShortcut
